@@ -1,14 +1,653 @@
 (* Proofs about Model/BitIO.v: property C20. *)
 From Coq Require Import ZArith List Bool Lia ZifyBool.
-From VC2 Require Import Base.PyZ Model.BitIO.
+From VC2 Require Import Base.PyZ Gen.ExpGolombLen Model.BitIO.
 Import ListNotations.
 Open Scope Z_scope.
 Ltac Zify.zify_post_hook ::= Z.to_euclidean_division_equations.
 
-(* ---- bounded blocks: what happens at and past the end ------------------- *)
+(* ---------------------------------------------------------------- bit facts *)
+Lemma land1_testbit c nb : 0 <= nb -> Z.land (Z.shiftr c nb) 1 = b2z (Z.testbit c nb).
+Proof.
+  intros H. change 1 with (Z.ones 1) at 1. rewrite Z.land_ones by lia.
+  change (2 ^ 1) with 2. rewrite <- Z.bit0_mod. rewrite Z.shiftr_spec by lia.
+  replace (0 + nb) with nb by lia. destruct (Z.testbit c nb); reflexivity.
+Qed.
+
+Lemma b2z_01 b : b2z b = 0 \/ b2z b = 1.
+Proof. destruct b; cbn; lia. Qed.
+Lemma z2b_b2z b : z2b (b2z b) = b.
+Proof. destruct b; reflexivity. Qed.
+
+Lemma nbits_list_length n v : length (nbits_list n v) = n.
+Proof. induction n; cbn; congruence. Qed.
+
+Lemma nbits_list_ext n x y :
+  (forall i, 0 <= i -> Z.testbit x i = Z.testbit y i) -> nbits_list n x = nbits_list n y.
+Proof. intros H. induction n; cbn; [reflexivity|]. rewrite IHn, H by lia. reflexivity. Qed.
+
+Lemma nbits_list_snoc k x :
+  nbits_list (S k) x = nbits_list k (Z.shiftr x 1) ++ [Z.testbit x 0].
+Proof.
+  induction k.
+  - reflexivity.
+  - change (nbits_list (S (S k)) x) with (Z.testbit x (Z.of_nat (S k)) :: nbits_list (S k) x).
+    rewrite IHk. cbn [nbits_list app]. f_equal.
+    rewrite Z.shiftr_spec by lia. f_equal. lia.
+Qed.
+
+Lemma bits_val_cons acc b l : bits_val acc (b :: l) = bits_val (2 * acc + b2z b) l.
+Proof. reflexivity. Qed.
+
+Lemma bits_val_app acc l1 l2 : bits_val acc (l1 ++ l2) = bits_val (bits_val acc l1) l2.
+Proof. unfold bits_val. apply fold_left_app. Qed.
+
+Lemma bits_val_nbits k x acc :
+  bits_val acc (nbits_list k x) = acc * 2 ^ Z.of_nat k + x mod 2 ^ Z.of_nat k.
+Proof.
+  revert acc. induction k; intros acc.
+  - cbn. rewrite Z.mod_1_r. lia.
+  - cbn [nbits_list]. rewrite bits_val_cons, IHk.
+    replace (Z.of_nat (S k)) with (Z.of_nat k + 1) by lia.
+    rewrite Z.pow_add_r by lia. change (2 ^ 1) with 2.
+    assert (Hp : 0 < 2 ^ Z.of_nat k) by (apply Z.pow_pos_nonneg; lia).
+    rewrite (Z.rem_mul_r x (2 ^ Z.of_nat k) 2) by lia.
+    assert (Hb : b2z (Z.testbit x (Z.of_nat k)) = (x / 2 ^ Z.of_nat k) mod 2).
+    { rewrite <- (Z.testbit_spec' x (Z.of_nat k)) by lia.
+      destruct (Z.testbit x (Z.of_nat k)); reflexivity. }
+    rewrite Hb. ring.
+Qed.
+
+Lemma nbits_value n v : 0 <= v < 2 ^ Z.of_nat n -> bits_val 0 (nbits_list n v) = v.
+Proof. intros H. rewrite bits_val_nbits. rewrite Z.mod_small by lia. lia. Qed.
+
+Lemma bit_length_pos v : 0 < v -> bit_length v = Z.log2 v + 1.
+Proof. destruct v; unfold bit_length; try lia; reflexivity. Qed.
+Lemma bit_length_nonneg v : 0 <= bit_length v.
+Proof. destruct v; unfold bit_length; try lia; pose proof (Z.log2_nonneg (Z.pos p)); lia. Qed.
+
+Lemma uint_value v : 0 <= v ->
+  bits_val 1 (nbits_list (Z.to_nat (bit_length (v + 1) - 1)) (v + 1)) - 1 = v.
+Proof.
+  intros H. rewrite bit_length_pos by lia.
+  replace (Z.log2 (v + 1) + 1 - 1) with (Z.log2 (v + 1)) by lia.
+  pose proof (Z.log2_nonneg (v + 1)) as Hl.
+  pose proof (Z.log2_spec (v + 1) ltac:(lia)) as [L1 L2].
+  rewrite bits_val_nbits, Z2Nat.id by lia.
+  replace (Z.succ (Z.log2 (v + 1))) with (Z.log2 (v + 1) + 1) in L2 by lia.
+  rewrite Z.pow_add_r in L2 by lia. change (2 ^ 1) with 2 in L2.
+  set (p := 2 ^ Z.log2 (v + 1)) in *.
+  assert (E : (v + 1) mod p = v + 1 - p).
+  { symmetry. apply Z.mod_unique with (q := 1); lia. }
+  rewrite E. lia.
+Qed.
+
+Lemma interleave0_length l : length (interleave0 l) = (2 * length l)%nat.
+Proof. induction l; cbn; lia. Qed.
+
+Lemma uint_bits_length v : 0 <= v -> Z.of_nat (length (uint_bits v)) = exp_golomb_length v.
+Proof.
+  intros H. unfold uint_bits, exp_golomb_length.
+  rewrite app_length, interleave0_length, nbits_list_length. cbn [length].
+  destruct (v <? 0) eqn:E; [lia|].
+  pose proof (bit_length_pos (v + 1) ltac:(lia)). pose proof (Z.log2_nonneg (v + 1)). lia.
+Qed.
+
+Lemma sint_bits_length v : Z.of_nat (length (sint_bits v)) = signed_exp_golomb_length v.
+Proof.
+  unfold sint_bits, signed_exp_golomb_length. rewrite app_length, Nat2Z.inj_add.
+  unfold py_abs. rewrite uint_bits_length by lia.
+  destruct (v =? 0); cbn; lia.
+Qed.
+
+Lemma nbits_out_of_range n v :
+  ((v <? 0) || (bit_length v >? n) = true) <-> (v < 0 \/ 2 ^ n <= v).
+Proof.
+  destruct (Z.ltb_spec v 0) as [Hv|Hv]; cbn [orb]; [split; [lia|reflexivity]|].
+  pose proof (bit_length_nonneg v) as Hb.
+  destruct (Z.ltb_spec n 0) as [Hn|Hn].
+  - rewrite Z.pow_neg_r by lia. split; [lia|]. intros _. lia.
+  - destruct (Z.eq_dec v 0) as [->|Hv0].
+    + cbn. pose proof (Z.pow_pos_nonneg 2 n ltac:(lia) Hn). split; lia.
+    + rewrite bit_length_pos by lia.
+      pose proof (Z.log2_le_pow2 v n ltac:(lia)) as L.
+      split; intros K.
+      * right. apply L. lia.
+      * destruct K as [K|K]; [lia|]. apply L in K. lia.
+Qed.
+
+(* ---------------------------------------------------------- generic loops *)
+Section Generic.
+  Context {St : Type}.
+  Variable rb : St -> St * res Z.
+
+  Inductive feeds : St -> list bool -> St -> Prop :=
+  | feeds_nil s : feeds s [] s
+  | feeds_cons s s1 s' b l : rb s = (s1, Ok (b2z b)) -> feeds s1 l s' -> feeds s (b :: l) s'.
+
+  Lemma feeds_nil_inv s s' : feeds s [] s' -> s' = s.
+  Proof. inversion 1; reflexivity. Qed.
+  Lemma feeds_cons_inv s b l s' : feeds s (b :: l) s' -> exists s1, rb s = (s1, Ok (b2z b)) /\ feeds s1 l s'.
+  Proof. inversion 1; subst; eauto. Qed.
+
+  Lemma feeds_app s l1 l2 m s' : feeds s l1 m -> feeds m l2 s' -> feeds s (l1 ++ l2) s'.
+  Proof. induction 1; intros; cbn; [assumption|]. econstructor; eauto. Qed.
+
+  Lemma feeds_app_inv l1 : forall s l2 s', feeds s (l1 ++ l2) s' -> exists m, feeds s l1 m /\ feeds m l2 s'.
+  Proof.
+    induction l1; cbn; intros s l2 s' H.
+    - exists s. split; [constructor|assumption].
+    - inversion H; subst. destruct (IHl1 _ _ _ H5) as [m [A B]].
+      exists m. split; [econstructor; eauto|assumption].
+  Qed.
+
+  Lemma g_nbits_feeds comb :
+    (forall a b, comb (Z.shiftl a 1) (b2z b) = 2 * a + b2z b) ->
+    forall l acc s s', feeds s l s' -> g_nbits rb comb (length l) acc s = (s', Ok (bits_val acc l)).
+  Proof.
+    intros Hc. induction l; intros acc s s' H; inversion H; subst; cbn [length g_nbits].
+    - reflexivity.
+    - rewrite H3. cbn [bind]. rewrite Hc. rewrite bits_val_cons. apply IHl. assumption.
+  Qed.
+
+  Lemma g_bitlist_feeds : forall l s s', feeds s l s' -> g_bitlist rb (length l) s = (s', Ok (map b2z l)).
+  Proof.
+    induction l; intros s s' H; inversion H; subst; cbn [length g_bitlist map].
+    - reflexivity.
+    - rewrite H3. cbn [bind]. rewrite (IHl _ _ H5). reflexivity.
+  Qed.
+
+  Lemma g_uint_feeds : forall l acc s s' extra,
+    feeds s (interleave0 l ++ [true]) s' ->
+    g_uint rb (S (length l + extra)) acc s = (s', Ok (bits_val acc l - 1)).
+  Proof.
+    induction l; intros acc s s' extra H.
+    - cbn in H. inversion H; subst. inversion H5; subst.
+      cbn [g_uint]. rewrite H3. cbn. reflexivity.
+    - cbn [interleave0 app] in H. inversion H; subst. inversion H5; subst.
+      cbn [length plus g_uint]. rewrite H3. cbn [bind b2z z2b Z.eqb negb].
+      rewrite H4. cbn [bind]. rewrite bits_val_cons.
+      rewrite Z.shiftl_mul_pow2 by lia. change (2 ^ 1) with 2.
+      replace (acc * 2 + b2z a) with (2 * acc + b2z a) by lia.
+      apply IHl. assumption.
+  Qed.
+
+  Lemma g_uint_mono : forall f v s s' r,
+    g_uint rb f v s = (s', r) -> r <> Err EFuel -> forall f', (f <= f')%nat -> g_uint rb f' v s = (s', r).
+  Proof.
+    induction f; intros v s s' r H Hr f' Hf.
+    - cbn in H. inversion H; subst. congruence.
+    - destruct f' as [|f']; [lia|]. cbn [g_uint] in *.
+      destruct (rb s) as [s1 [b|e]]; cbn [bind] in *; [|assumption].
+      destruct (z2b b); [assumption|].
+      destruct (rb s1) as [s2 [b2|e2]]; cbn [bind] in *; [|assumption].
+      eapply IHf; eauto. lia.
+  Qed.
+
+  Lemma g_uint_fuel_irrelevant f1 f2 v s s1 r1 :
+    g_uint rb f1 v s = (s1, r1) -> r1 <> Err EFuel -> snd (g_uint rb f2 v s) <> Err EFuel ->
+    g_uint rb f2 v s = (s1, r1).
+  Proof.
+    intros H1 Hr1 H2. destruct (le_ge_dec f1 f2) as [L|L].
+    - eapply g_uint_mono; eauto.
+    - destruct (g_uint rb f2 v s) as [s2 r2] eqn:E. cbn in H2.
+      pose proof (g_uint_mono _ _ _ _ _ E H2 f1 L) as K. congruence.
+  Qed.
+
+  Lemma g_sint_feeds v fuel s s' :
+    feeds s (sint_bits v) s' ->
+    (forall m, feeds s (uint_bits (Z.abs v)) m -> g_uint rb fuel 1 s = (m, Ok (Z.abs v))) ->
+    g_sint rb fuel s = (s', Ok v).
+  Proof.
+    intros H Hu. unfold sint_bits in H. apply feeds_app_inv in H. destruct H as [m [A B]].
+    unfold g_sint. rewrite (Hu _ A). cbn [bind].
+    destruct (v =? 0) eqn:E.
+    - apply feeds_nil_inv in B. subst. replace (Z.abs v =? 0) with true by lia. f_equal. f_equal. lia.
+    - replace (Z.abs v =? 0) with false by lia. apply feeds_cons_inv in B. destruct B as [s2 [B1 B2]].
+      apply feeds_nil_inv in B2. subst.
+      rewrite B1. cbn [bind]. rewrite z2b_b2z. f_equal. f_equal.
+      destruct (v <? 0) eqn:E2; lia.
+  Qed.
+
+  (* the exp-Golomb loop cannot run out of fuel when every 0 bit read consumes input *)
+  Variable good : St -> Prop.
+  Variable meas : St -> nat.
+  Hypothesis Hstep : forall s s' b, good s -> rb s = (s', Ok b) ->
+    good s' /\ (meas s' <= meas s)%nat /\ (b = 0 -> (meas s' < meas s)%nat).
+  Hypothesis Hnofuel : forall s s' e, rb s = (s', Err e) -> e <> EFuel.
+
+  Lemma g_uint_no_fuel : forall f v s, good s -> (meas s < f)%nat -> snd (g_uint rb f v s) <> Err EFuel.
+  Proof.
+    induction f; intros v s G M; [lia|]. cbn [g_uint].
+    destruct (rb s) as [s1 [b|e]] eqn:E1; cbn [bind].
+    - destruct (Hstep _ _ _ G E1) as [G1 [M1 Z1]].
+      destruct (z2b b) eqn:Eb; [cbn; congruence|].
+      assert (b = 0) by (unfold z2b in Eb; lia).
+      destruct (rb s1) as [s2 [b2|e2]] eqn:E2; cbn [bind].
+      + destruct (Hstep _ _ _ G1 E2) as [G2 [M2 _]]. apply IHf; [assumption|]. specialize (Z1 H). lia.
+      + cbn. intros K. inversion K. eapply Hnofuel; eauto.
+    - cbn. intros K. inversion K. eapply Hnofuel; eauto.
+  Qed.
+
+End Generic.
+
+(* ------------------------------------------------------------ file lemmas *)
+Lemma skipn_nth_some (f : list Z) n c :
+  nth_error f n = Some c -> skipn n f = c :: skipn (S n) f.
+Proof.
+  revert f. induction n; intros [|x f] H; cbn in *; try discriminate.
+  - inversion H; reflexivity.
+  - apply IHn. assumption.
+Qed.
+Lemma skipn_nth_none (f : list Z) n : nth_error f n = None -> skipn n f = [].
+Proof. intros H. apply skipn_all2. apply nth_error_None. assumption. Qed.
+
+Lemma nth_z_some f i c : 0 <= i -> nth_z f i = Some c ->
+  skipn (Z.to_nat i) f = c :: skipn (Z.to_nat (i + 1)) f.
+Proof.
+  intros Hi H. unfold nth_z in H. destruct (i <? 0) eqn:E; [lia|].
+  replace (Z.to_nat (i + 1)) with (S (Z.to_nat i)) by lia. apply skipn_nth_some. assumption.
+Qed.
+Lemma nth_z_none f i : 0 <= i -> nth_z f i = None -> skipn (Z.to_nat i) f = [].
+Proof.
+  intros Hi H. unfold nth_z in H. destruct (i <? 0) eqn:E; [lia|]. apply skipn_nth_none. assumption.
+Qed.
+
+(* ------------------------------------------------------- BitstreamReader *)
+Definition r_wf (s : rst) : Prop := 0 <= r_nb s <= 7 /\ 0 <= r_off s.
+
+Lemma r_get_spec s : r_wf s ->
+  match r_view s with
+  | [] => r_get s = (s, Err EEof)
+  | b :: t => exists s', r_get s = (s', Ok (b2z b)) /\ r_view s' = t /\ r_wf s' /\ r_rem s' = r_rem s
+                         /\ r_bitpos s' = r_bitpos s + 1 /\ r_file s' = r_file s
+  end.
+Proof.
+  destruct s as [f off nb cur rem]. unfold r_wf, r_view, r_get, r_bitpos, to_bit_offset. cbn [r_nb r_off r_cur r_file r_rem].
+  intros [Hnb Hoff]. destruct cur as [c|]; [|reflexivity].
+  replace (Z.to_nat (nb + 1)) with (S (Z.to_nat nb)) by lia.
+  cbn [nbits_list app]. rewrite Z2Nat.id by lia.
+  rewrite land1_testbit by lia.
+  destruct (nb - 1 <? 0) eqn:E.
+  - assert (nb = 0) by lia. subst nb. cbn [Z.to_nat nbits_list app].
+    unfold r_read_byte. cbn [r_nb r_off r_cur r_file r_rem].
+    eexists. split; [reflexivity|]. cbn [r_nb r_off r_cur r_file r_rem].
+    split.
+    + destruct (nth_z f off) as [c'|] eqn:En.
+      * rewrite (nth_z_some _ _ _ Hoff En). reflexivity.
+      * rewrite (nth_z_none _ _ Hoff En). reflexivity.
+    + repeat split; lia.
+  - eexists. split; [reflexivity|]. cbn [r_nb r_off r_cur r_file r_rem].
+    replace (Z.to_nat (nb - 1 + 1)) with (Z.to_nat nb) by lia.
+    repeat split; lia.
+Qed.
+
+Lemma r_read_bit_unb s : r_rem s = None -> r_read_bit s = r_get s.
+Proof. intros H. unfold r_read_bit. rewrite H. reflexivity. Qed.
+
+Lemma r_feeds_unb : forall l s rest, r_wf s -> r_rem s = None -> r_view s = l ++ rest ->
+  exists s', feeds r_read_bit s l s' /\ r_wf s' /\ r_rem s' = None /\ r_view s' = rest
+             /\ r_bitpos s' = r_bitpos s + Z.of_nat (length l) /\ r_file s' = r_file s.
+Proof.
+  induction l; intros s rest W R V.
+  - exists s. cbn in *. repeat split; try assumption; try constructor; try apply W; lia.
+  - pose proof (r_get_spec s W) as G. rewrite V in G. cbn [app] in G.
+    destruct G as [s1 [G1 [G2 [G3 [G4 [G5 G6]]]]]].
+    destruct (IHl s1 rest G3 ltac:(congruence) G2) as [s' [F [W' [R' [V' [P' F']]]]]].
+    exists s'. repeat split; try assumption; try apply W'.
+    + econstructor; [|exact F]. rewrite r_read_bit_unb by assumption. exact G1.
+    + cbn [length]. lia.
+    + congruence.
+Qed.
+
+Lemma lor_comb a b : Z.lor (Z.shiftl a 1) (b2z b) = 2 * a + b2z b.
+Proof.
+  rewrite Z.shiftl_mul_pow2 by lia. change (2 ^ 1) with 2.
+  destruct b; cbn [b2z].
+  - assert (L : Z.land (a * 2) 1 = 0).
+    { change 1 with (Z.ones 1). rewrite Z.land_ones by lia. change (2 ^ 1) with 2.
+      apply Z.mod_mul. lia. }
+    rewrite <- Z.lxor_lor by exact L. rewrite <- Z.add_nocarry_lxor by exact L. lia.
+  - rewrite Z.lor_0_r. lia.
+Qed.
+Lemma add_comb a b : Z.add (Z.shiftl a 1) (b2z b) = 2 * a + b2z b.
+Proof. rewrite Z.shiftl_mul_pow2 by lia. change (2 ^ 1) with 2. lia. Qed.
+
+(* good/measure instance for the fuel of read_uint: bounded or not *)
+Lemma r_read_bit_step s s' b : r_wf s -> r_read_bit s = (s', Ok b) ->
+  r_wf s' /\ (length (r_view s') <= length (r_view s))%nat /\ (b = 0 -> (length (r_view s') < length (r_view s))%nat).
+Proof.
+  intros W H. unfold r_read_bit in H.
+  assert (G : forall s0, r_wf s0 -> r_get s0 = (s', Ok b) ->
+              r_wf s' /\ (length (r_view s') < length (r_view s0))%nat).
+  { intros s0 W0 H0. pose proof (r_get_spec s0 W0) as G. destruct (r_view s0) as [|x t].
+    - congruence.
+    - destruct G as [s1 [G1 [G2 [G3 _]]]]. rewrite G1 in H0. inversion H0; subst. cbn [length]. split; [assumption|lia]. }
+  destruct (r_rem s) as [r|] eqn:R.
+  - destruct (r - 1 <=? -1).
+    + inversion H; subst. split; [exact W|]. split; [reflexivity|]. intros K; discriminate.
+    + destruct (G (r_set_rem s (Some (r - 1))) W H) as [A B]. split; [assumption|].
+      change (r_view (r_set_rem s (Some (r - 1)))) with (r_view s) in B. split; lia.
+  - destruct (G s W H) as [A B]. split; [assumption|]. split; lia.
+Qed.
+Lemma r_read_bit_nofuel s s' e : r_read_bit s = (s', Err e) -> e <> EFuel.
+Proof.
+  unfold r_read_bit, r_get. intros H.
+  destruct (r_rem s) as [r|].
+  - destruct (r - 1 <=? -1); [discriminate|].
+    cbn [r_cur r_set_rem] in H. destruct (r_cur s); inversion H; discriminate.
+  - destruct (r_cur s); inversion H; discriminate.
+Qed.
+
+Lemma r_read_uint_no_fuel s : r_wf s -> snd (r_read_uint s) <> Err EFuel.
+Proof.
+  intros W. unfold r_read_uint, r_fuel.
+  apply (g_uint_no_fuel r_read_bit r_wf (fun s => length (r_view s))).
+  - intros. apply r_read_bit_step; assumption.
+  - apply r_read_bit_nofuel.
+  - assumption.
+  - lia.
+Qed.
+
+(* round trips: BitstreamReader, outside bounded blocks *)
+Definition r_reads {A} (m : rst * res A) (s : rst) (v : A) (n : nat) (rest : list bool) : Prop :=
+  exists s', m = (s', Ok v) /\ r_view s' = rest /\ r_wf s' /\ r_rem s' = None
+             /\ r_bitpos s' = r_bitpos s + Z.of_nat n /\ r_file s' = r_file s.
+
+Lemma r_nbits_roundtrip n v s rest : r_wf s -> r_rem s = None -> 0 <= n -> 0 <= v < 2 ^ n ->
+  r_view s = nbits_list (Z.to_nat n) v ++ rest ->
+  r_reads (r_read_nbits n s) s v (Z.to_nat n) rest.
+Proof.
+  intros W R Hn Hv V. destruct (r_feeds_unb _ _ _ W R V) as [s' [F [W' [R' [V' [P' F']]]]]].
+  exists s'. rewrite nbits_list_length in P'. repeat split; try assumption; try apply W'.
+  unfold r_read_nbits. pose proof (g_nbits_feeds r_read_bit Z.lor lor_comb _ 0 _ _ F) as G.
+  rewrite nbits_list_length in G. rewrite G. rewrite nbits_value; [reflexivity|].
+  rewrite Z2Nat.id by lia. assumption.
+Qed.
+
+Lemma r_uint_roundtrip v s rest : r_wf s -> r_rem s = None -> 0 <= v ->
+  r_view s = uint_bits v ++ rest ->
+  r_reads (r_read_uint s) s v (length (uint_bits v)) rest.
+Proof.
+  intros W R Hv V. destruct (r_feeds_unb _ _ _ W R V) as [s' [F [W' [R' [V' [P' F']]]]]].
+  exists s'. repeat split; try assumption; try apply W'.
+  unfold r_read_uint. unfold uint_bits in F.
+  pose proof (g_uint_feeds r_read_bit _ 1 _ _ 0%nat F) as G.
+  rewrite uint_value in G by assumption.
+  eapply g_uint_fuel_irrelevant; [exact G|discriminate|].
+  apply r_read_uint_no_fuel. assumption.
+Qed.
+
+Lemma r_sint_roundtrip v s rest : r_wf s -> r_rem s = None ->
+  r_view s = sint_bits v ++ rest ->
+  r_reads (r_read_sint s) s v (length (sint_bits v)) rest.
+Proof.
+  intros W R V. destruct (r_feeds_unb _ _ _ W R V) as [s' [F [W' [R' [V' [P' F']]]]]].
+  exists s'. repeat split; try assumption; try apply W'.
+  unfold r_read_sint. apply g_sint_feeds with (v := v); [assumption|].
+  intros m Fm. unfold uint_bits in Fm.
+  pose proof (g_uint_feeds r_read_bit _ 1 _ _ 0%nat Fm) as G.
+  rewrite uint_value in G by lia.
+  eapply g_uint_fuel_irrelevant; [exact G|discriminate|].
+  apply r_read_uint_no_fuel. assumption.
+Qed.
+
+Lemma r_bitarray_roundtrip (l : list bool) s rest : r_wf s -> r_rem s = None ->
+  r_view s = l ++ rest ->
+  r_reads (r_read_bitarray (Z.of_nat (length l)) s) s (map b2z l) (length l) rest.
+Proof.
+  intros W R V. destruct (r_feeds_unb _ _ _ W R V) as [s' [F [W' [R' [V' [P' F']]]]]].
+  exists s'. repeat split; try assumption; try apply W'.
+  unfold r_read_bitarray. rewrite Nat2Z.id. apply g_bitlist_feeds. assumption.
+Qed.
+
+Lemma bits_to_bytes_spec (l : list Z) :
+  Forall (fun b => 0 <= b < 256) l ->
+  bits_to_bytes (map b2z (flat_map (nbits_list 8) l)) = l.
+Proof.
+  induction 1 as [|b l Hb Hl IH]; [reflexivity|].
+  cbn [flat_map]. change (nbits_list 8 b) with
+    [Z.testbit b 7; Z.testbit b 6; Z.testbit b 5; Z.testbit b 4; Z.testbit b 3; Z.testbit b 2; Z.testbit b 1; Z.testbit b 0].
+  cbn [app map bits_to_bytes]. rewrite IH. f_equal.
+  pose proof (nbits_value 8 b) as N. change (2 ^ Z.of_nat 8) with 256 in N. specialize (N Hb).
+  change (nbits_list 8 b) with
+    [Z.testbit b 7; Z.testbit b 6; Z.testbit b 5; Z.testbit b 4; Z.testbit b 3; Z.testbit b 2; Z.testbit b 1; Z.testbit b 0] in N.
+  unfold bits_val in N. cbn [fold_left] in N. lia.
+Qed.
+
+Lemma r_bytes_roundtrip (l : list Z) s rest : r_wf s -> r_rem s = None ->
+  Forall (fun b => 0 <= b < 256) l ->
+  r_view s = flat_map (nbits_list 8) l ++ rest ->
+  r_reads (r_read_bytes (Z.of_nat (length l)) s) s l (8 * length l) rest.
+Proof.
+  intros W R Hl V.
+  assert (Len : length (flat_map (nbits_list 8) l) = (8 * length l)%nat).
+  { clear. induction l; [reflexivity|]. cbn [flat_map length]. rewrite app_length, nbits_list_length. lia. }
+  destruct (r_bitarray_roundtrip _ _ _ W R V) as [s' [E [V' [W' [R' [P' F']]]]]].
+  exists s'. rewrite Len in *. repeat split; try assumption; try apply W'.
+  unfold r_read_bytes. replace (Z.of_nat (length l) * 8) with (Z.of_nat (8 * length l)) by lia.
+  rewrite E. cbn [bind]. rewrite bits_to_bytes_spec by assumption. reflexivity.
+Qed.
+
+(* ---------------------------------------------------------- decoder reader *)
+Definition d_wf (s : dst) : Prop := 0 <= d_nb s <= 7 /\ 0 <= d_pos s.
+
+Lemma d_read_bit_spec s : d_wf s ->
+  match d_view s with
+  | [] => d_read_bit s = (s, Err EUnexpectedEOS)
+  | b :: t => exists s', d_read_bit s = (s', Ok (b2z b)) /\ d_view s' = t /\ d_wf s' /\ d_left s' = d_left s
+                         /\ d_bitpos s' = d_bitpos s + 1 /\ d_file s' = d_file s
+  end.
+Proof.
+  destruct s as [f pos nb cur left rec]. unfold d_wf, d_view, d_read_bit, d_bitpos, d_tell, to_bit_offset.
+  cbn [d_nb d_pos d_cur d_file d_left d_rec fst snd].
+  intros [Hnb Hpos]. destruct cur as [c|]; [|reflexivity].
+  replace (Z.to_nat (nb + 1)) with (S (Z.to_nat nb)) by lia.
+  cbn [nbits_list app]. rewrite Z2Nat.id by lia.
+  rewrite land1_testbit by lia.
+  destruct (nb - 1 <? 0) eqn:E.
+  - assert (nb = 0) by lia. subst nb. cbn [Z.to_nat nbits_list app].
+    unfold d_read_byte. cbn [d_nb d_pos d_cur d_file d_left d_rec].
+    destruct (nth_z f pos) as [c'|] eqn:En.
+    + eexists. split; [reflexivity|]. cbn [d_nb d_pos d_cur d_file d_left d_rec fst snd].
+      rewrite (nth_z_some _ _ _ Hpos En). repeat split; lia.
+    + eexists. split; [reflexivity|]. cbn [d_nb d_pos d_cur d_file d_left d_rec fst snd].
+      rewrite (nth_z_none _ _ Hpos En). repeat split; lia.
+  - eexists. split; [reflexivity|]. cbn [d_nb d_pos d_cur d_file d_left d_rec fst snd].
+    replace (Z.to_nat (nb - 1 + 1)) with (Z.to_nat nb) by lia.
+    repeat split; lia.
+Qed.
+
+Lemma d_feeds_unb : forall l s rest, d_wf s -> d_view s = l ++ rest ->
+  exists s', feeds d_read_bit s l s' /\ d_wf s' /\ d_left s' = d_left s /\ d_view s' = rest
+             /\ d_bitpos s' = d_bitpos s + Z.of_nat (length l) /\ d_file s' = d_file s.
+Proof.
+  induction l; intros s rest W V.
+  - exists s. cbn in *. repeat split; try assumption; try constructor; try apply W; lia.
+  - pose proof (d_read_bit_spec s W) as G. rewrite V in G. cbn [app] in G.
+    destruct G as [s1 [G1 [G2 [G3 [G4 [G5 G6]]]]]].
+    destruct (IHl s1 rest G3 G2) as [s' [F [W' [R' [V' [P' F']]]]]].
+    exists s'. repeat split; try assumption; try apply W'.
+    + econstructor; [exact G1|exact F].
+    + congruence.
+    + cbn [length]. lia.
+    + congruence.
+Qed.
+
+Lemma d_read_bitb_step s s' b : d_wf s -> d_read_bitb s = (s', Ok b) ->
+  d_wf s' /\ (length (d_view s') <= length (d_view s))%nat /\ (b = 0 -> (length (d_view s') < length (d_view s))%nat).
+Proof.
+  intros W H. unfold d_read_bitb in H. destruct (d_left s =? 0).
+  - inversion H; subst. split; [exact W|]. split; [reflexivity|discriminate].
+  - set (s0 := d_set_left s (d_left s - 1)) in *.
+    assert (W0 : d_wf s0) by exact W.
+    pose proof (d_read_bit_spec s0 W0) as G. change (d_view s0) with (d_view s) in G.
+    destruct (d_view s) as [|x t]; [congruence|].
+    destruct G as [s1 [G1 [G2 [G3 _]]]]. rewrite G1 in H. inversion H; subst. cbn [length]. split; [assumption|]. split; lia.
+Qed.
+Lemma d_read_bit_step s s' b : d_wf s -> d_read_bit s = (s', Ok b) ->
+  d_wf s' /\ (length (d_view s') <= length (d_view s))%nat /\ (b = 0 -> (length (d_view s') < length (d_view s))%nat).
+Proof.
+  intros W H. pose proof (d_read_bit_spec s W) as G.
+  destruct (d_view s) as [|x t]; [congruence|].
+  destruct G as [s1 [G1 [G2 [G3 _]]]]. rewrite G1 in H. inversion H; subst. cbn [length]. split; [assumption|]. split; lia.
+Qed.
+Lemma d_read_bit_nofuel s s' e : d_read_bit s = (s', Err e) -> e <> EFuel.
+Proof. unfold d_read_bit. destruct (d_cur s); intros H; inversion H; discriminate. Qed.
+Lemma d_read_bitb_nofuel s s' e : d_read_bitb s = (s', Err e) -> e <> EFuel.
+Proof. unfold d_read_bitb. destruct (d_left s =? 0); [discriminate|]. apply d_read_bit_nofuel. Qed.
+
+Lemma d_read_uint_no_fuel s : d_wf s -> snd (d_read_uint s) <> Err EFuel.
+Proof.
+  intros W. unfold d_read_uint, d_fuel.
+  apply (g_uint_no_fuel d_read_bit d_wf (fun s => length (d_view s))).
+  - intros. apply d_read_bit_step; assumption.
+  - apply d_read_bit_nofuel.
+  - assumption.
+  - lia.
+Qed.
+Lemma d_read_uintb_no_fuel s : d_wf s -> snd (d_read_uintb s) <> Err EFuel.
+Proof.
+  intros W. unfold d_read_uintb, d_fuel.
+  apply (g_uint_no_fuel d_read_bitb d_wf (fun s => length (d_view s))).
+  - intros. apply d_read_bitb_step; assumption.
+  - apply d_read_bitb_nofuel.
+  - assumption.
+  - lia.
+Qed.
+
+Definition d_reads {A} (m : dst * res A) (s : dst) (v : A) (n : nat) (rest : list bool) : Prop :=
+  exists s', m = (s', Ok v) /\ d_view s' = rest /\ d_wf s' /\ d_left s' = d_left s
+             /\ d_bitpos s' = d_bitpos s + Z.of_nat n /\ d_file s' = d_file s.
+
+Lemma d_nbits_roundtrip n v s rest : d_wf s -> 0 <= n -> 0 <= v < 2 ^ n ->
+  d_view s = nbits_list (Z.to_nat n) v ++ rest ->
+  d_reads (d_read_nbits n s) s v (Z.to_nat n) rest.
+Proof.
+  intros W Hn Hv V. destruct (d_feeds_unb _ _ _ W V) as [s' [F [W' [R' [V' [P' F']]]]]].
+  exists s'. rewrite nbits_list_length in P'. repeat split; try assumption; try apply W'.
+  unfold d_read_nbits. pose proof (g_nbits_feeds d_read_bit Z.add add_comb _ 0 _ _ F) as G.
+  rewrite nbits_list_length in G. rewrite G. rewrite nbits_value; [reflexivity|].
+  rewrite Z2Nat.id by lia. assumption.
+Qed.
+
+Lemma d_uint_roundtrip v s rest : d_wf s -> 0 <= v ->
+  d_view s = uint_bits v ++ rest ->
+  d_reads (d_read_uint s) s v (length (uint_bits v)) rest.
+Proof.
+  intros W Hv V. destruct (d_feeds_unb _ _ _ W V) as [s' [F [W' [R' [V' [P' F']]]]]].
+  exists s'. repeat split; try assumption; try apply W'.
+  unfold d_read_uint. unfold uint_bits in F.
+  pose proof (g_uint_feeds d_read_bit _ 1 _ _ 0%nat F) as G.
+  rewrite uint_value in G by assumption.
+  eapply g_uint_fuel_irrelevant; [exact G|discriminate|].
+  apply d_read_uint_no_fuel. assumption.
+Qed.
+
+Lemma d_sint_roundtrip v s rest : d_wf s ->
+  d_view s = sint_bits v ++ rest ->
+  d_reads (d_read_sint s) s v (length (sint_bits v)) rest.
+Proof.
+  intros W V. destruct (d_feeds_unb _ _ _ W V) as [s' [F [W' [R' [V' [P' F']]]]]].
+  exists s'. repeat split; try assumption; try apply W'.
+  unfold d_read_sint. apply g_sint_feeds with (v := v); [assumption|].
+  intros m Fm. unfold uint_bits in Fm.
+  pose proof (g_uint_feeds d_read_bit _ 1 _ _ 0%nat Fm) as G.
+  rewrite uint_value in G by lia.
+  eapply g_uint_fuel_irrelevant; [exact G|discriminate|].
+  apply d_read_uint_no_fuel. assumption.
+Qed.
+
+(* ------------------------------------------- bounded blocks: the end of a block *)
 Lemma r_read_past_end s k :
   r_rem s = Some k -> k <= 0 -> r_read_bit s = (r_set_rem s (Some (k - 1)), Ok 1).
 Proof.
   intros Hr Hk. unfold r_read_bit. rewrite Hr.
   destruct (k - 1 <=? -1) eqn:E; [reflexivity|lia].
 Qed.
+Lemma r_read_inside s k :
+  r_rem s = Some k -> 0 < k -> r_read_bit s = r_get (r_set_rem s (Some (k - 1))).
+Proof.
+  intros Hr Hk. unfold r_read_bit. rewrite Hr.
+  destruct (k - 1 <=? -1) eqn:E; [lia|reflexivity].
+Qed.
+Lemma w_write_past_end s k b :
+  w_rem s = Some k -> k <= 0 ->
+  w_write_bit b s = (w_set_rem s (Some (k - 1)), if b then None else Some EValue).
+Proof.
+  intros Hr Hk. unfold w_write_bit. rewrite Hr.
+  destruct (k - 1 <=? -1) eqn:E; [reflexivity|lia].
+Qed.
+Lemma w_write_inside s k b :
+  w_rem s = Some k -> 0 < k -> w_write_bit b s = (w_put b (w_set_rem s (Some (k - 1))), None).
+Proof.
+  intros Hr Hk. unfold w_write_bit. rewrite Hr.
+  destruct (k - 1 <=? -1) eqn:E; [lia|reflexivity].
+Qed.
+Lemma d_read_past_end s : d_left s = 0 -> d_read_bitb s = (s, Ok 1).
+Proof. intros H. unfold d_read_bitb. rewrite H. reflexivity. Qed.
+Lemma d_read_inside s : d_left s <> 0 -> d_read_bitb s = d_read_bit (d_set_left s (d_left s - 1)).
+Proof. intros H. unfold d_read_bitb. destruct (d_left s =? 0) eqn:E; [lia|reflexivity]. Qed.
+
+(* past the end every primitive of BitstreamReader sees only 1s and moves nothing but the counter *)
+Lemma r_feeds_past_end : forall n s k, r_rem s = Some k -> k <= 0 ->
+  feeds r_read_bit s (repeat true n) (r_set_rem s (Some (k - Z.of_nat n))).
+Proof.
+  induction n; intros s k R K.
+  - cbn [repeat]. replace (k - Z.of_nat 0) with k by lia.
+    replace (r_set_rem s (Some k)) with s; [constructor|]. destruct s; unfold r_set_rem; cbn in *; subst; reflexivity.
+  - cbn [repeat]. econstructor.
+    + apply r_read_past_end; eassumption.
+    + specialize (IHn (r_set_rem s (Some (k - 1))) (k - 1) eq_refl ltac:(lia)).
+      replace (k - Z.of_nat (S n)) with (k - 1 - Z.of_nat n) by lia. exact IHn.
+Qed.
+
+Lemma r_uint_past_end s k : r_wf s -> r_rem s = Some k -> k <= 0 ->
+  r_read_uint s = (r_set_rem s (Some (k - 1)), Ok 0).
+Proof.
+  intros W R K. unfold r_read_uint, r_fuel. cbn [g_uint].
+  rewrite (r_read_past_end _ _ R K). reflexivity.
+Qed.
+Lemma block_end_value_r s k : r_rem s = Some k -> r_block_end s = (r_set_rem s None, Ok (Z.max 0 k)).
+Proof. intros H. unfold r_block_end. rewrite H. reflexivity. Qed.
+Lemma block_end_value_w s k : w_rem s = Some k -> w_block_end s = (w_set_rem s None, Ok (Z.max 0 k)).
+Proof. intros H. unfold w_block_end. rewrite H. reflexivity. Qed.
+
+(* negative block lengths: the two readers differ (decoder tests == 0) *)
+Lemma readers_differ_negative :
+  exists f len body, len < 0 /\ r_run [PBlock len body] (r_init f 0) <> d_run [PBlock len body] (d_init f 0).
+Proof. exists [0], (-1), [BBit]. split; [lia|]. vm_compute. discriminate. Qed.
+
+(* the validator only ever opens blocks with these lengths (decoder/transform_data_syntax.py) *)
+Lemma g_nbits_nonneg {St} (rb : St -> St * res Z) comb
+  (Hc : forall a b, 0 <= a -> 0 <= b -> 0 <= comb (Z.shiftl a 1) b)
+  (Hb : forall s s' b, rb s = (s', Ok b) -> 0 <= b) :
+  forall n acc s s' v, 0 <= acc -> g_nbits rb comb n acc s = (s', Ok v) -> 0 <= v.
+Proof.
+  induction n; intros acc s s' v Ha H; cbn [g_nbits] in H.
+  - inversion H; subst; assumption.
+  - destruct (rb s) as [s1 [b|e]] eqn:E; cbn [bind] in H; [|discriminate].
+    eapply IHn; [|exact H]. apply Hc; [assumption|]. eapply Hb; eauto.
+Qed.
+Lemma d_read_bit_nonneg s s' b : d_read_bit s = (s', Ok b) -> 0 <= b.
+Proof.
+  unfold d_read_bit. destruct (d_cur s); intros H; inversion H; subst.
+  apply Z.land_nonneg. right. lia.
+Qed.
+Lemma d_read_nbits_nonneg n s s' v : d_read_nbits n s = (s', Ok v) -> 0 <= v.
+Proof.
+  unfold d_read_nbits. apply g_nbits_nonneg; try lia.
+  - intros a b Ha Hb. rewrite Z.shiftl_mul_pow2 by lia. lia.
+  - apply d_read_bit_nonneg.
+Qed.
+
+Lemma exp_golomb_length_dom_ok v : 0 <= v -> exp_golomb_length_dom v = true.
+Proof. intros H. unfold exp_golomb_length_dom. destruct (v <? 0) eqn:E; [lia|reflexivity]. Qed.
+Lemma signed_exp_golomb_length_dom_ok v : signed_exp_golomb_length_dom v = true.
+Proof.
+  unfold signed_exp_golomb_length_dom. rewrite exp_golomb_length_dom_ok by (unfold py_abs; lia).
+  destruct (negb (v =? 0)); reflexivity.
+Qed.
+
+Lemma d_block_lengths_nonneg n s s' y left :
+  d_read_nbits n s = (s', Ok y) -> (y >? left) = false -> 0 <= y /\ 0 <= left - y.
+Proof. intros H G. pose proof (d_read_nbits_nonneg n s s' y H). lia. Qed.
